@@ -19,7 +19,7 @@ RULE = ("each run = a reference world plus transformed twins: identical rebuild,
         "(some pilot below its station maximum while demand remains); distinct = history signature + transformation set")
 PROBES = ["unnamed_limits_with_withdrawn_draft", "recorded_arrival_before_plugin_period", "rebuild_pair", "registration_permuted", "constraints_permuted", "sessions_permuted", "shift_pair",
           "hashseed_fresh_interpreter", "sorted_finite_world", "guard_band_skips", "json_clone_pair", "deepcopy_pair", "one_noisy_battery_world", "json_clone_permuted_pair", "second_life_pair",
-          "uninterrupted_world"]
+          "uninterrupted_world", "training_records_listed_in_another_order"]
 FAULT_DIMENSION = "reordering / hash seed / time shift as metamorphic schedule dimension (no faults injected)"
 ASSUMPTIONS = ["sorted parties are compared under permutations only when every priority key gap and feasibility margin of the "
                "reference run is outside a 1e-7 guard band (else inconclusive)",
@@ -87,6 +87,11 @@ def result_of(sc, snapshot=False):
            "energy": {k: float(v.energy_delivered) for k, v in tr.sim.ev_history.items()},
            "events": sorted((e.timestamp, e.event_type, str(getattr(getattr(e, "ev", None), "session_id", None))) for e in tr.sim.event_history),
            "digest": tr.digest}
+    # the same outputs as a user reads them: the labelled tables (one column per station id)
+    for key_, fn_ in (("pilots_table", "pilot_signals_as_df"), ("rates_table", "charging_rates_as_df")):
+        df_ = getattr(tr.sim, fn_)()
+        if len(set(ids)) == len(ids) and list(df_.columns) and len(set(df_.columns)) == len(df_.columns):
+            res[key_] = {s: [float(x) for x in df_[s].to_numpy()[:n]] for s in df_.columns}
     return tr, res
 
 
@@ -95,7 +100,9 @@ def differ(a, b, tol, shift=0):
         return "exception %s vs %s" % (a["exc"], b["exc"])
     if b["iteration"] != a["iteration"] + shift:
         return "iteration %d vs %d (shift %d)" % (a["iteration"], b["iteration"], shift)
-    for key in ("pilots", "rates"):
+    for key in ("pilots", "rates", "pilots_table", "rates_table"):
+        if key not in a or key not in b:
+            continue
         if set(a[key]) != set(b[key]):
             return "%s station sets differ" % key
         for s, row in a[key].items():
@@ -178,6 +185,25 @@ def check(sc):
     if out.aborted:
         return out
     r = sub(sc["seed"], "c10")
+    rtd = sub(sc["seed"], "training_order")
+    if rtd.random() < 0.15:
+        # the library's session generator is trained on recorded sessions: the training matrix (and hence the fitted model and
+        # everything generated from it) must not depend on the order in which the records are listed
+        import datetime as _dt
+        from acnportal.acnsim.events import stochastic_events as _se
+        t0_ = _dt.datetime(2019, 3, 1, tzinfo=_dt.timezone.utc)
+        offs_ = rtd.sample(range(0, 60 * 24 * 40), rtd.randint(3, 12))           # distinct connection minutes
+        docs_ = [{"connectionTime": t0_ + _dt.timedelta(minutes=o_), "disconnectTime": t0_ + _dt.timedelta(minutes=o_ + rtd.randint(5, 900)),
+                  "kWhDelivered": round(rtd.uniform(0.5, 40), 3), "_id": "d%d" % o_} for o_ in offs_]
+        listed_ = list(docs_)
+        rtd.shuffle(listed_)
+        m_sorted = np.array(_se.GaussianMixtureEvents.extract_training_data(sorted(docs_, key=lambda d_: d_["connectionTime"])), dtype=float)
+        m_listed = np.array(_se.GaussianMixtureEvents.extract_training_data(listed_), dtype=float)
+        out.probe("training_records_listed_in_another_order")
+        if m_sorted.shape != m_listed.shape or not np.array_equal(m_sorted, m_listed):
+            out.add("C10/training_data_depends_on_listing_order", "extract_training_data: records listed chronologically give rows %s..., the same records listed "
+                    "as %s give rows %s..." % (m_sorted[:3].tolist(), [d_["_id"] for d_ in listed_][:6], m_listed[:3].tolist()))
+            return out
     sorted_party = kind in ("greedy", "rr")
     if sorted_party:
         out.probe("sorted_finite_world")
